@@ -7,17 +7,18 @@ import (
 
 	"verif/vsched"
 
-	bitcoin_reader "github.com/tokenized/bitcoin_reader"
 	"github.com/google/uuid"
+	bitcoin_reader "github.com/tokenized/bitcoin_reader"
 	"github.com/tokenized/pkg/bitcoin"
 )
 
 // fakeRequestor is a scripted BlockRequestor: the i-th call is answered by the i-th behaviour.
-//   deliver  a node that serves the block
-//   slow     a node that serves the block after 7 virtual seconds
-//   drop     a node that disconnects (calls onStop) without serving
-//   silent   a node that never answers
-//   none     no node available
+//
+//	deliver  a node that serves the block
+//	slow     a node that serves the block after 7 virtual seconds
+//	drop     a node that disconnects (calls onStop) without serving
+//	silent   a node that never answers
+//	none     no node available
 type fakeRequestor struct {
 	mu       vsched.Mutex
 	script   []string
